@@ -375,6 +375,49 @@ class SimRLock:
         return self.owner is self.sched.cur or (self.sched.cur is None and self.owner == 'main')
 
 
+class SimEvent:
+    """threading.Event whose waiting is a scheduler decision (a real Event would stop the one thread that holds
+    the baton, i.e. the whole simulation).  wait() blocks until set(); a wait that nobody can ever satisfy is
+    the scheduler's 'deadlock'.  A timed wait on an unset event returns False at once (simulated time has no 'short')."""
+
+    def __init__(self, sched):
+        self.sched = sched
+        self.flag = False
+
+    def is_set(self):
+        return self.flag
+
+    isSet = is_set
+
+    def set(self):
+        s = self.sched
+        self.flag = True
+        if s.cur is None:
+            return
+        for t in s.threads:
+            if t.blocked_on is self:
+                t.blocked_on = None
+        s.yield_point(('event', 'set'))
+
+    def clear(self):
+        self.flag = False
+
+    def wait(self, timeout=None):
+        s = self.sched
+        if s.cur is None:
+            return self.flag
+        if s.abort_reason is not None:
+            raise SimAbort()
+        me = s.cur
+        s.yield_point(('event', 'wait'))
+        if timeout is not None and not self.flag:
+            return False
+        while not self.flag:
+            me.blocked_on = self
+            s.block(('event', 'blocked'))
+        return True
+
+
 class SimLock(SimRLock):
     """Non re-entrant variant (used when the code under test creates a plain Lock)."""
 
